@@ -19,7 +19,7 @@ import time
 
 VERIF = os.path.dirname(os.path.dirname(os.path.abspath(__file__)))
 REPO = os.environ.get("RCGEN_REPO", "/repo")
-CACHE = os.path.join(VERIF, ".cache")
+CACHE = os.environ.get("VERIF_CACHE_DIR") or os.path.join(VERIF, ".cache")
 DRIVER = os.path.join(CACHE, "driver-target", "debug", "rcgen-facts")
 
 # id -> (cargo args, fact files expected)
